@@ -292,6 +292,12 @@ func runC01(r *report.Run) {
 					if loc != "" {
 						r.Count("located_client_responses", 1)
 					}
+					if wl := len(q.Name) + 2; wl >= 94 && exp.Class != "refused" { // name of >= 94 wire octets: database key of >= 96 bytes
+						r.Count("responses_for_names_of_94_or_more_octets", 1)
+						if wl >= 254 {
+							r.Count("responses_for_names_of_254_or_255_octets", 1)
+						}
+					}
 					if exp.Class != "refused" {
 						r.Nontrivial(fmt.Sprintf("%d/%s/%d/%q", seed, q.Name, q.Type, loc))
 						for _, a := range exp.Answer {
